@@ -1,20 +1,252 @@
-//! C08 — liquidity <-> token amounts. Function-level part in `c08_fn`; the handler-level part (real token
-//! transfers, token_max / token_min) is added here by the main agent.
+//! C08 — liquidity <-> token amounts. Function-level part in `c08_fn` (exact oracle over boundary cross products + small box,
+//! Anchor vs Pinocchio). Handler-level part (here, Engine A): explicit-state search over W-std / chain / ts=1 worlds; every
+//! successful increase / decrease transition is judged from real balances (vault and wallet deltas == the exact amounts
+//! rounded up / down, only one token outside the range, event == amounts moved) and re-executed with caller maxima / minima one
+//! below, equal to and one above the realised amounts; increase_liquidity_by_token_amounts_v2 is executed in every state over a
+//! maxima alphabet and must add the largest liquidity whose cost fits both maxima.
+use crate::liqhandlers::{self, AmtStats};
+use crate::ops::{Lim, Op, Part, Stepped};
+use crate::poolexplore::{self, PoolModel};
+use crate::refmodel::*;
 use crate::report::{Ctx, Report};
+use crate::stdworlds::{self, Built};
+use crate::world::{self, balance, Enc, StdWorld};
 use serde_json::Value;
+use std::sync::Mutex;
+use svm::Ledger;
+use whirlpool::math::sqrt_price_from_tick_index;
+
+fn worlds(thorough: bool) -> Vec<Built> {
+    let roots = stdworlds::std_roots();
+    let mut v = vec![stdworlds::build_with_roots(&stdworlds::std_spec("c08-std-dfd", [Enc::Dynamic, Enc::Fixed, Enc::Dynamic], 3000, 300), &roots)];
+    v.push(stdworlds::build_with_roots(&stdworlds::chain_spec("c08-chain-fdf", [Enc::Fixed, Enc::Dynamic, Enc::Fixed], 100, 0), &stdworlds::chain_roots()));
+    if thorough {
+        let ts1_roots: Vec<(&'static str, Vec<Op>)> = vec![
+            ("fresh", vec![]),
+            ("funded", vec![Op::Inc { pos: 0, liq: stdworlds::BIG * 1000, v2: false }, Op::Inc { pos: 1, liq: stdworlds::BIG * 100, v2: true }, Op::Inc { pos: 2, liq: stdworlds::BIG * 100, v2: true }]),
+        ];
+        v.push(stdworlds::build_with_roots(&stdworlds::ts1_spec("c08-ts1"), &ts1_roots));
+        let splash_roots: Vec<(&'static str, Vec<Op>)> = vec![("fresh", vec![]), ("funded", vec![Op::Inc { pos: 0, liq: stdworlds::BIG, v2: false }])];
+        v.push(stdworlds::build_with_roots(&stdworlds::splash_spec("c08-splash"), &splash_roots));
+    }
+    v
+}
+
+fn alphabet(b: &Built) -> Vec<Op> {
+    let n = b.w.positions.len() as u8;
+    let mut a = vec![];
+    for pos in 0..n {
+        a.push(Op::Inc { pos, liq: stdworlds::BIG, v2: pos % 2 == 0 });
+        a.push(Op::Inc { pos, liq: 1, v2: pos % 2 == 1 });
+        a.push(Op::Inc { pos, liq: 987_654_321_987, v2: true });
+        a.push(Op::Dec { pos, part: Part::All, v2: pos % 2 == 1 });
+        a.push(Op::Dec { pos, part: Part::Half, v2: pos % 2 == 0 });
+        a.push(Op::Dec { pos, part: Part::One, v2: true });
+    }
+    for a_to_b in [true, false] {
+        a.push(Op::Swap { a_to_b, exact_in: true, amount: u64::MAX >> 8, lim: Lim::NextTick, v2: a_to_b }); // exactly on a bound / shifted state
+        a.push(Op::Swap { a_to_b, exact_in: true, amount: 3_000_000, lim: Lim::None, v2: !a_to_b });
+        a.push(Op::Swap { a_to_b, exact_in: true, amount: u64::MAX >> 8, lim: Lim::PastNextTick, v2: a_to_b });
+    }
+    a
+}
+
+#[derive(Default, Clone, Debug)]
+struct ByAmt {
+    executed: u64,
+    ok: u64,
+    liquidity_zero: u64,
+    a_binding: u64,
+    b_binding: u64,
+}
+
+const MAXIMA: [(u64, u64); 6] = [(1_000_000, 1_000_000), (1, 1_000_000_000), (1_000_000_000, 1), (0, 5), (5, 0), (u64::MAX >> 12, 777)];
+
+/// increase_liquidity_by_token_amounts_v2 in one state for every position and maxima pair.
+fn by_token_amounts(l: &Ledger, w: &StdWorld, s: &mut ByAmt) -> Result<(), String> {
+    let pool = w.pool.state(l);
+    for p in &w.positions {
+        if !p.exists(l) {
+            continue;
+        }
+        let (pl, pu) = (sqrt_price_from_tick_index(p.lower), sqrt_price_from_tick_index(p.upper));
+        let cost = |liq: u128| -> (num_bigint::BigUint, num_bigint::BigUint) {
+            let (qa, qb) = if pool.tick_current_index < p.lower {
+                (exact_delta_a(pl, pu, liq), Q::zero())
+            } else if pool.tick_current_index < p.upper {
+                (exact_delta_a(pool.sqrt_price, pu, liq), exact_delta_b(pl, pool.sqrt_price, liq))
+            } else {
+                (Q::zero(), exact_delta_b(pl, pu, liq))
+            };
+            (qa.ceil(), qb.ceil())
+        };
+        for (ma, mb) in MAXIMA {
+            let ix = world::ix_increase_by_token_amounts(p, &w.lp, ma, mb, MIN_SQRT_PRICE, MAX_SQRT_PRICE);
+            let mut c = l.clone();
+            let o = svm::process(&mut c, &ix);
+            s.executed += 1;
+            let before = p.state(l).liquidity;
+            if o.ok() {
+                s.ok += 1;
+                let added = p.state(&c).liquidity - before;
+                let (ca, cb) = cost(added);
+                let da = balance(l, &w.lp.acct_a) - balance(&c, &w.lp.acct_a);
+                let db = balance(l, &w.lp.acct_b) - balance(&c, &w.lp.acct_b);
+                if bu(da as u128) != ca || bu(db as u128) != cb {
+                    return Err(format!("by-token-amounts({ma},{mb}) on [{}..{}) added {added} and took {da}/{db}, exact cost rounded up is {ca}/{cb}", p.lower, p.upper));
+                }
+                if da > ma || db > mb {
+                    return Err(format!("by-token-amounts({ma},{mb}) took {da}/{db}: above the caller's maximum"));
+                }
+                if added == 0 {
+                    return Err("by-token-amounts succeeded adding zero liquidity".into());
+                }
+                // largest liquidity whose cost fits both maxima
+                let (na, nb) = cost(added + 1);
+                let a_over = na > bu(ma as u128);
+                let b_over = nb > bu(mb as u128);
+                if !a_over && !b_over {
+                    return Err(format!(
+                        "by-token-amounts({ma},{mb}) on [{}..{}) added {added}, but {} would also fit (cost {na}/{nb})",
+                        p.lower, p.upper, added + 1
+                    ));
+                }
+                if a_over {
+                    s.a_binding += 1;
+                }
+                if b_over {
+                    s.b_binding += 1;
+                }
+            } else if o.code() == Some(crate::oracles::ec(whirlpool::errors::ErrorCode::LiquidityZero)) {
+                s.liquidity_zero += 1;
+                let (na, nb) = cost(1);
+                if na <= bu(ma as u128) && nb <= bu(mb as u128) {
+                    return Err(format!("by-token-amounts({ma},{mb}) on [{}..{}) refused with LiquidityZero although liquidity 1 costs {na}/{nb}", p.lower, p.upper));
+                }
+            }
+            // other failures (overflow in the estimate etc.) are unconstrained: "for which the computation succeeds"
+        }
+        // price slippage bounds: current price outside [min,max] must be refused
+        for (lo, hi) in [(pool.sqrt_price + 1, MAX_SQRT_PRICE), (MIN_SQRT_PRICE, pool.sqrt_price - 1)] {
+            let ix = world::ix_increase_by_token_amounts(p, &w.lp, 1_000_000, 1_000_000, lo, hi);
+            let mut c = l.clone();
+            let o = svm::process(&mut c, &ix);
+            s.executed += 1;
+            if o.ok() {
+                return Err(format!("by-token-amounts accepted price {} outside the caller's bounds [{lo},{hi}]", pool.sqrt_price));
+            }
+        }
+    }
+    Ok(())
+}
+
+fn model<'a>(b: &'a Built, stats: &'a Mutex<AmtStats>, by: &'a Mutex<ByAmt>, by_every: u128) -> PoolModel<'a> {
+    PoolModel::new(
+        &b.w,
+        alphabet(b),
+        Box::new(move |l: &Ledger, w: &StdWorld| {
+            // quick tier: every state whose fingerprint is 0 mod 4; thorough: every state
+            if by_every > 1 && l.fingerprint_of(&crate::ops::core_keys(l, w), false) % by_every != 0 {
+                return Ok(());
+            }
+            let mut local = ByAmt::default();
+            let r = by_token_amounts(l, w, &mut local);
+            let mut g = by.lock().unwrap();
+            g.executed += local.executed;
+            g.ok += local.ok;
+            g.liquidity_zero += local.liquidity_zero;
+            g.a_binding += local.a_binding;
+            g.b_binding += local.b_binding;
+            r
+        }),
+        Box::new(move |pre: &Ledger, st: &Stepped, w: &StdWorld, op: &Op| {
+            let (pos, liq, increase, v2) = match op {
+                Op::Inc { pos, liq, v2 } => (*pos as usize, *liq, true, *v2),
+                Op::Dec { pos, part, v2 } => {
+                    let cur = w.positions[*pos as usize].state(pre).liquidity;
+                    let amt = match part {
+                        Part::All => cur,
+                        Part::Half => cur / 2,
+                        Part::One => 1.min(cur),
+                    };
+                    (*pos as usize, amt, false, *v2)
+                }
+                _ => return Ok(()),
+            };
+            let p = &w.positions[pos];
+            let v2 = v2 || !w.pool.is_v1_capable();
+            let ix_of = |a: u64, b: u64| if increase { world::ix_increase(p, &w.lp, liq, a, b, v2) } else { world::ix_decrease(p, &w.lp, liq, a, b, v2) };
+            let mut local = AmtStats::default();
+            let r = liqhandlers::amounts_oracle(pre, st, w, p, liq, increase, &ix_of, &mut local);
+            let mut g = stats.lock().unwrap();
+            g.increases += local.increases;
+            g.decreases += local.decreases;
+            g.below += local.below;
+            g.inside += local.inside;
+            g.above += local.above;
+            g.bound_reruns += local.bound_reruns;
+            g.bound_failures += local.bound_failures;
+            g.nonzero_remainder += local.nonzero_remainder;
+            r
+        }),
+    )
+}
 
 pub fn run(ctx: &Ctx) -> Report {
-    let mut r = Report::new("C08", "exploration");
+    let mut r = Report::new("C08", "model_checking");
     super::c08_fn::run_fn(ctx, &mut r);
     let fn_rule = r.coverage.get("fn_rule").and_then(|v| v.as_str()).unwrap_or("").to_string();
     r.set("rule", fn_rule);
+    if r.violations.is_empty() {
+        let ws = worlds(!ctx.tier.is_quick());
+        let share = ctx.left() * 0.9 / ws.len() as f64;
+        let stats = Mutex::new(AmtStats::default());
+        let by = Mutex::new(ByAmt::default());
+        for b in &ws {
+            let m = model(b, &stats, &by, ctx.pick(4, 1));
+            let out = poolexplore::run_world(ctx, &mut r, b, &m, ctx.pick(3, 5), share);
+            poolexplore::fold(&mut r, &b.name, &out, &m.alphabet[..3]);
+            if !r.violations.is_empty() {
+                break;
+            }
+        }
+        let s = stats.lock().unwrap().clone();
+        let bs = by.lock().unwrap().clone();
+        r.set("handler_increases_checked", s.increases);
+        r.set("handler_decreases_checked", s.decreases);
+        r.set("handler_bound_reexecutions", s.bound_reruns);
+        r.set("by_token_amounts_executions", bs.executed);
+        r.guard("handler_increases_checked", s.increases);
+        r.guard("handler_decreases_checked", s.decreases);
+        r.guard("handler_price_below_range", s.below);
+        r.guard("handler_price_inside_range", s.inside);
+        r.guard("handler_price_above_range", s.above);
+        r.guard("handler_nonzero_remainder", s.nonzero_remainder);
+        r.guard("handler_bound_failures_seen", s.bound_failures);
+        r.guard("by_token_amounts_ok", bs.ok);
+        r.guard("by_token_amounts_liquidity_zero", bs.liquidity_zero);
+        r.guard("by_token_amounts_token_a_binding", bs.a_binding);
+        r.guard("by_token_amounts_token_b_binding", bs.b_binding);
+    }
     r.set("exhaustive", false);
+    r.assume("svm-lite faithfully replaces the validator (DESIGN §2.1); plain SPL mints here (transfer-fee mints are C16)");
     r
 }
 
 pub fn replay(case: &Value) -> Result<(), String> {
-    match super::c08_fn::replay_fn(case) {
-        Some(res) => res,
-        None => Err("bad case".into()),
+    if let Some(res) = super::c08_fn::replay_fn(case) {
+        return res;
+    }
+    match case["kind"].as_str() {
+        Some("ops") => {
+            let ws = worlds(true);
+            let name = case["world"].as_str().ok_or("world")?;
+            let b = ws.iter().find(|b| b.name == name).ok_or("unknown world")?;
+            let stats = Mutex::new(AmtStats::default());
+            let by = Mutex::new(ByAmt::default());
+            let m = model(b, &stats, &by, 1);
+            poolexplore::replay_ops(b, &m, case["root"].as_str().ok_or("root")?, &case["ops"])
+        }
+        _ => Err("bad case".into()),
     }
 }
